@@ -290,13 +290,24 @@ def tie_scenarios() -> list[C03Scenario]:
     return out
 
 
+def relist_scenarios() -> list[C03Scenario]:
+    """The watch is re-listed (410 Gone) or reconnected around an edit, with a raw-event handler whose patch changes nothing: the explorer
+    places the re-listing between the operator's own PATCH and its echo (the awaited version never comes, the listed one is newer)."""
+    out = []
+    for h in ([('spec', 'a', 2), ('relist',), ('status', 'a', 1)], [('spec', 'a', 2), ('status', 'a', 1), ('relist',)], [('spec', 'a', 2), ('relist',)],
+              [('relist',), ('spec', 'a', 2)], [('spec', 'a', 2), ('reconnect',), ('status', 'a', 1)]):
+        for fails in (0, 1):
+            out.append(build(h, 0.0, 8, fails, grid=1.0))
+    return out
+
+
 def run(tier: str, seed: int) -> CheckResult:
     hist, crash, timing = scenarios(tier)
     ties = tie_scenarios()
     if tier == 'quick':
-        groups = [('histories', hist, 0, 60.0), ('crash-points', crash, 1, 40.0), ('timing', timing, 1, 40.0), ('idle-worker-tie', ties, 2, 30.0)]
+        groups = [('histories', hist, 0, 60.0), ('crash-points', crash, 1, 40.0), ('timing', timing, 1, 40.0), ('idle-worker-tie', ties, 2, 30.0), ('relist-inside-the-barrier', relist_scenarios(), 1, 30.0)]
     else:
-        groups = [('histories', hist, 0, 600.0), ('crash-points', crash, 2, 600.0), ('timing', timing, 2, 600.0), ('idle-worker-tie', ties, 3, 300.0)]
+        groups = [('histories', hist, 0, 600.0), ('crash-points', crash, 2, 600.0), ('timing', timing, 2, 600.0), ('idle-worker-tie', ties, 3, 300.0), ('relist-inside-the-barrier', relist_scenarios(), 2, 300.0)]
     stats, viols, info, nscen = run_groups(groups, seed=seed)
     return CheckResult(
         prop='C03', tier=tier, seed=seed, stats=stats, violations=viols, scenarios=nscen,
